@@ -13,7 +13,12 @@ from . import common as C
 def run(seed, n, risky=False):
     """risky: False | True (all four) | a list of risky trivia names (see gendoc.render.TriviaPlan.risky)"""
     os.makedirs(C.WORK, exist_ok=True)
-    hb = hashlib.sha256(open(os.path.join(C.TOOLS, "harness"), "rb").read()).hexdigest()[:16]
+    h = hashlib.sha256(open(os.path.join(C.TOOLS, "harness"), "rb").read())
+    gd = os.path.join(os.path.dirname(os.path.abspath(__file__)), "gendoc")
+    for fn in sorted(os.listdir(gd)):
+        if fn.endswith(".py"):
+            h.update(open(os.path.join(gd, fn), "rb").read())      # the generator itself is part of the key
+    hb = h.hexdigest()[:16]
     rk = ",".join(risky) if isinstance(risky, (list, tuple)) else ("all" if risky else "none")
     cache = os.path.join(C.WORK, "gencheck_%s_%d_%d_%s.json" % (hb, seed, n, hashlib.sha256(rk.encode()).hexdigest()[:8]))
     if os.path.exists(cache) and time.time() - os.path.getmtime(cache) < 1800:
